@@ -123,6 +123,43 @@ fn build_units(full: bool) -> Vec<Unit> {
     units
 }
 
+/// Independent vowels typed with the SIGN keys - the same keys in both orders: a sign key where automatic vowel
+/// forming applies (`auto_vowel` units), a left-standing sign key followed by another sign key, and hasanta + sign key
+/// (the hasanta rule makes the independent vowel) after whatever the previous unit left.
+fn build_vowel_units() -> Vec<(Unit, bool)> {
+    let plain = |keys: Vec<Ev>, label: String, waiting: Option<usize>| Unit {
+        tw_reph_on: keys.clone(),
+        tw_reph_off: keys.clone(),
+        un_reph_on: keys.clone(),
+        un_reph_off: keys,
+        waiting_after: waiting,
+        class: label.split(':').next().unwrap().to_string(),
+        label,
+    };
+    let right = ['a', 'u', ']', '}', 'e', 'w'];
+    let left = ['i', '[', '{'];
+    let mut v = vec![];
+    for s in right {
+        v.push((plain(vec![k(s)], format!("vowel-by-sign-key:{}", s), None), true));
+    }
+    for l in left {
+        for s in right.iter() {
+            // e + aa / e + ou are the two-part typings of o / ou: not a pair of vowels in typewriter order
+            if l == '[' && (*s == 'a' || *s == '}') {
+                continue;
+            }
+            // `[` + `a` etc. are the two-part typings of the statement when a consonant stands between them; without one
+            // they are still one key history typed identically in both orders
+            v.push((plain(vec![k(l), k(*s)], format!("left-sign-then-sign:{}{}", l, s), Some(0)), true));
+        }
+    }
+    for s in right.iter().chain(left.iter()) {
+        v.push((plain(vec![k('/'), k(*s)], format!("hasanta-then-sign:{}", s), None), false));
+        v.push((plain(vec![k('/'), k(*s), k('k')], format!("hasanta-then-sign-then-consonant:{}", s), None), false));
+    }
+    v
+}
+
 struct Walk<'a> {
     a: Ctx, // option on, typewriter order
     b: Ctx, // option off, Unicode order
@@ -296,13 +333,23 @@ pub fn run(report: &Report, thorough: bool) -> Evidence {
             }
         }
     }
+    // plan 3: [nothing | one unit of the reduced set] + one vowel unit (see build_vowel_units)
+    let vowel_units = build_vowel_units();
+    let mut ext_units: Vec<Unit> = small_units.clone();
+    ext_units.extend(vowel_units.iter().map(|(u, _)| u.clone()));
+    for setting in 0..16u32 {
+        items.push((setting, usize::MAX, 3));
+        for u in 0..small_units.len() {
+            items.push((setting, u, 3));
+        }
+    }
     par_for(
         items.len(),
         4,
         |w| scratch_xdg(&format!("c14-{}", w)),
         |xdg, idx| {
             let (setting, first, plan) = items[idx];
-            let units: &[Unit] = if plan == 0 { &full_units } else { &small_units };
+            let units: &[Unit] = if plan == 0 { &full_units } else if plan == 3 { &ext_units } else { &small_units };
             let depth = if plan == 0 { 2 } else if plan == 1 { 3 } else { 1 };
             let mut o = Opts::fixed(&layout, "", xdg);
             o.vowel = setting & 1 != 0;
@@ -327,6 +374,54 @@ pub fn run(report: &Report, thorough: bool) -> Evidence {
             let mut w = Walk { a, b, units, report, words: 0, keys: 0, waiting_checks: 0, texts: HashSet::new(), samples: &samples };
             restore(&w.a, &FxState::idle());
             restore(&w.b, &FxState::idle());
+            if plan == 3 {
+                for (vi, (_, needs_auto_vowel)) in vowel_units.iter().enumerate() {
+                    if *needs_auto_vowel && !o.vowel {
+                        continue;
+                    }
+                    restore(&w.a, &FxState::idle());
+                    restore(&w.b, &FxState::idle());
+                    let mut path: Vec<usize> = vec![];
+                    if first != usize::MAX {
+                        path.push(first);
+                        if !w.type_unit(&path) {
+                            continue;
+                        }
+                        // automatic vowel forming applies at the start, after a vowel (sign) and after punctuation only
+                        if *needs_auto_vowel {
+                            let last = read_state(&w.b).buf.chars().last();
+                            let mut applies = last.map(|c| crate::bn::is_sign(c) || crate::bn::is_indep_vowel(c) || c == ',').unwrap_or(true);
+                            // after a syllable with e-kar the keys aa / ou are the second half of o / ou in typewriter order
+                            let first_key = match vowel_units[vi].0.tw_reph_on.last().unwrap() {
+                                Ev::Key { code, .. } => crate::keys::by_code(*code).and_then(|k| k.ch),
+                                _ => None,
+                            };
+                            if last == Some('\u{09C7}') && matches!(first_key, Some('a') | Some('}')) {
+                                applies = false;
+                            }
+                            if !applies {
+                                continue;
+                            }
+                        }
+                    }
+                    path.push(small_units.len() + vi);
+                    if w.type_unit(&path) {
+                        w.words += 1;
+                        let ta = read_state(&w.a);
+                        let tb = read_state(&w.b);
+                        w.texts.insert(h64(&ta.buf));
+                        if ta.buf != tb.buf || ta.pending != 0 {
+                            let u = *path.last().unwrap();
+                            w.viol("order-mismatch", format!("diff:{}", units[u].class), &path, &[], format!("typewriter order with the option on gives {:?} (waiting sign {}), Unicode order with it off gives {:?}", ta.buf, ta.pending, tb.buf));
+                        }
+                    }
+                }
+                words.fetch_add(w.words, Ordering::Relaxed);
+                keys.fetch_add(w.keys, Ordering::Relaxed);
+                waiting.fetch_add(w.waiting_checks, Ordering::Relaxed);
+                texts.lock().unwrap().extend(w.texts);
+                return;
+            }
             let mut path = vec![first];
             if w.type_unit(&path) {
                 w.words += 1;
@@ -356,6 +451,7 @@ pub fn run(report: &Report, thorough: bool) -> Evidence {
     ev.set("waiting_sign_points_checked", waiting.load(Ordering::Relaxed));
     ev.set("unit_set_full", full_units.len());
     ev.set("unit_set_reduced", small_units.len());
+    ev.set("vowel_by_sign_key_units", vowel_units.len());
     ev.set("max_units_full_set", 2);
     ev.set("max_units_reduced_set", if thorough { 3 } else { 0 });
     ev.set("settings", 16);
